@@ -87,6 +87,8 @@ func (s *PStmt) Line() string {
 			return fmt.Sprintf("\tMOV %s,%s", s.Reg.Text, s.Text) // an EQU alias of the label
 		}
 		return fmt.Sprintf("\tMOV %s,%s", s.Reg.Text, s.Label)
+	case "stl":
+		return fmt.Sprintf("\tMOV %s,%s", s.Text, s.Label) // a label stored through a memory operand without a size keyword (Text)
 	case "lgdt":
 		return fmt.Sprintf("\tLGDT [%s]", s.Label)
 	case "farjmp":
@@ -230,6 +232,16 @@ func (p *Prog) DoWalk(out []byte) *Walk {
 			}
 			lane := rw / 8
 			w.Obs = append(w.Obs, Obs{Stmt: i, Off: off + in.Len - lane, Width: lane, Label: s.Label, Value: int64(uint64(in.Ops[1].Imm) & widthMask(rw)), Dollar: s.Label == "$"})
+			w.Len[i] = in.Len
+			off += in.Len
+		case "stl":
+			in := Decode(out[minInt(off, len(out)):], mode)
+			w.Decodes = append(w.Decodes, DecQ{Bytes: clip(out[minInt(off, len(out)):], 15), Mode: mode})
+			if in.Bad != "" || in.Op != "MOV" || len(in.Ops) != 2 || in.Ops[0].Kind != KMem || in.Ops[1].Kind != KImm || in.OpSize != mode {
+				return fail(i, "encoding", fmt.Sprintf("statement %d `MOV %s,%s` does not decode to a store of an immediate of the mode's width at offset %d: %s", i, s.Text, s.Label, off, in))
+			}
+			lane := mode / 8
+			w.Obs = append(w.Obs, Obs{Stmt: i, Off: off + in.Len - lane, Width: lane, Label: s.Label, Value: int64(uint64(in.Ops[1].Imm) & widthMask(mode))})
 			w.Len[i] = in.Len
 			off += in.Len
 		case "meml":
